@@ -946,6 +946,42 @@ func runCheck(prop, tier string) int {
 		fmt.Fprintln(os.Stderr, "verifctl: evidence:", err)
 		return 2
 	}
+	// reach probes: a probe stuck at zero means the workload no longer exercises what the check is
+	// about (a harness defect, e.g. an operation kind silently skipped), which must not pass as "held"
+	if exit == 0 && cfg.scenarios >= 100 && os.Getenv("VERIF_ONLY_IDS") == "" {
+		var missing []string
+		need := func(name string, n int) {
+			if n <= 0 {
+				missing = append(missing, name)
+			}
+		}
+		need("segments", st.Segments)
+		need("context switches", int(st.Switches))
+		need("leak checks", st.LeakChecks)
+		switch prop {
+		case "C15":
+			need("restarts", st.Restarts)
+			need("buffer mutations", st.Faults["buffer_mutation"])
+			need("map order permutations", st.Faults["map_order"])
+			need("clock jumps", st.Faults["clock_jump"])
+			need("fresh-process references", ck.refs.runs)
+		case "C16":
+			need("race-build segments", st.RaceSegments)
+			need("channel rendezvous", st.Pairs)
+			need("cold contention", st.Faults["cold_contention"])
+			need("stalls", st.Faults["stall"])
+			need("library goroutines", st.Spawned)
+		case "C18":
+			for _, k := range []string{"iter", "itern", "fill", "switch", "handoffs", "set", "get", "bytes", "addbits", "addbyte", "addbit", "new"} {
+				need("bitlist op "+k, st.BitStats[k])
+			}
+			need("exhaustive histories", exhaustiveN)
+		}
+		if len(missing) > 0 {
+			fmt.Fprintf(os.Stderr, "verifctl: harness trouble: reach probes at zero: %v\n", missing)
+			return 2
+		}
+	}
 	if exit == 0 {
 		fmt.Printf("OK property=%s held on everything explored\n", prop)
 	}
